@@ -554,6 +554,17 @@ E2E_T0 = 1700000000
 GET_V3 = [r for r in ROUTES if r[0] == "GET" and r[1] != "/burrow/admin/ready"]
 
 
+def _e2e_times(rng, kind, nk, last, t0):
+    """Commit times (seconds, non-decreasing, ending at `last`) that make the evaluator see the partition as `kind`."""
+    if nk == 1:
+        return [last]
+    if kind == "stop":
+        span = nk - 1                       # a window shorter than the silence since the last commit => STOP
+    else:
+        span = (t0 - last) + rng.randint(2, 10) + nk     # window longer than the silence: the STOP rule stays off
+    return [last - span + (k * span) // (nk - 1) for k in range(nk)]
+
+
 def gen_e2e(rng, i):
     """One storage-backed case: (line, meta).  meta holds the python-side knowledge the oracle needs."""
     expire = rng.choice([60, 300, 3600])
@@ -569,19 +580,22 @@ def gen_e2e(rng, i):
 
     topics = {}          # cluster -> {topic: partition count}
     groups = {}          # cluster -> {group: category}
+    plans = {}           # (cluster, group) -> [partition kinds in (topic, partition) order]
     for c in clusters:
         topics[c] = {}
+        broker_last = {}
         for tp in rng.sample(["t1", "orders", "a.b", "Logs"], rng.randint(1, 3)):
-            cnt = rng.randint(1, 3)
+            cnt = rng.choice([1, 2, 2, 3, 3])
             topics[c][tp] = cnt
             for p in range(cnt):
-                off = rng.randint(100, 10 ** 6)
+                off = 10 ** 6 + rng.randint(0, 10 ** 6)
                 for k in range(rng.randint(1, intervals + 1)):
                     off += rng.randint(0, 500)
-                    ev(E2E_T0 - 3 * expire - 50 + k, ["b", hx(c), hx(tp), str(p), str(cnt), str(off)])
+                    ev(E2E_T0 - 9 * expire - 50 + k, ["b", hx(c), hx(tp), str(p), str(cnt), str(off)])
+                broker_last[(tp, p)] = off
         groups[c] = {}
         for g in rng.sample(["g1", "billing", "g.x", "Group", "g 2"], rng.randint(0, 4)):
-            cat = rng.choice(["fresh", "fresh", "expiring", "expired"])
+            cat = rng.choice(["fresh", "fresh", "fresh", "expiring", "expired"])
             groups[c][g] = cat
             if cat == "fresh":
                 last = E2E_T0 - rng.randint(0, expire // 3)
@@ -590,16 +604,34 @@ def gen_e2e(rng, i):
                 last = E2E_T0 - expire + rng.randint(1, max(1, min(2 * expire, t_end_off + 3)))
             else:
                 last = E2E_T0 - expire - rng.randint(1, expire)
-            for tp in rng.sample(sorted(topics[c]), rng.randint(1, min(2, len(topics[c])))):
-                for p in rng.sample(range(topics[c][tp]), rng.randint(1, topics[c][tp])):
-                    nk = rng.randint(1, intervals + 2)
-                    off = rng.randint(0, 10 ** 5)
-                    for k in range(nk):
-                        tm = last - (nk - 1 - k) * rng.randint(1, 5)
-                        off += rng.randint(0, 300)
-                        ev(tm, ["c", hx(c), hx(g), hx(tp), str(p), str(off), str(tm * 1000)])
+            lag_idx = 0
+            plan = []
+            multi = [tp for tp in sorted(topics[c]) if topics[c][tp] >= 2]
+            chosen = rng.sample(sorted(topics[c]), rng.randint(1, min(2, len(topics[c]))))
+            if multi and not any(tp in multi for tp in chosen) and rng.random() < 0.8:
+                chosen[0] = rng.choice(multi)
+            for tp in chosen:
+                cnt = topics[c][tp]
+                parts = list(range(cnt)) if rng.random() < 0.8 else sorted(rng.sample(range(cnt), rng.randint(1, cnt)))
+                # the complete view lists a topic's partitions by index: an OK partition followed by a non-OK one (and
+                # other mixes) is what makes an in-place filter of the cached list visible
+                if len(parts) >= 2 and rng.random() < 0.6:
+                    kinds = ["ok", rng.choice(["stall", "stop"])] + [rng.choice(["ok", "stall", "stop"]) for _ in parts[2:]]
+                else:
+                    kinds = [rng.choice(["ok", "ok", "stall", "stop", "single"]) for _ in parts]
+                for p, kind in zip(parts, kinds):
+                    plan.append((tp, p, kind))
+                    lag_idx += 1
+                    lag = 1000 * lag_idx + rng.randint(0, 999)        # distinct lags inside a group: Maxlag has no ties
+                    final = broker_last[(tp, p)] - lag
+                    nk = 1 if kind == "single" else rng.randint(2, intervals + 2)
+                    times = _e2e_times(rng, kind, nk, last, E2E_T0)
+                    for k, tm in enumerate(times):
+                        off = final if kind == "stall" else final - (nk - 1 - k) * rng.randint(1, 300)
+                        ev(tm, ["c", hx(c), hx(g), hx(tp), str(p), str(max(off, 0)), str(tm * 1000)])
                     if rng.random() < 0.5:
                         ev(last, ["o", hx(c), hx(g), hx(tp), str(p), hx("host-%d" % rng.randint(1, 3))])
+            plans[(c, g)] = plan
     events.sort(key=lambda e: (e[0], e[1]))
     ops, cur = [], None
     for tm, _, toks in events:
@@ -607,11 +639,11 @@ def gen_e2e(rng, i):
             ops.append(["t", str(tm)])
             cur = tm
         ops.append(toks)
-    # the GET batch: every GET pattern, names from the pools (existing and unknown), clock values T .. T2
+    # the GET batches: every GET pattern, names from the pools (existing and unknown)
     gets, metas = [], []
     all_topics = sorted({t for c in clusters for t in topics[c]})
     all_groups = sorted({g for c in clusters for g in groups[c]})
-    for rep in range(rng.randint(1, 2)):
+    for rep in range(rng.randint(2, 3)):
         for method, pattern in GET_V3:
             names = [s[1:] for s in pattern.split("/") if s.startswith(":")]
             vals = []
@@ -620,7 +652,7 @@ def gen_e2e(rng, i):
                     pool = {"cluster": clusters, "storage": ["e2e"], "evaluator": ["e2e"], "consumer": [], "notifier": []}[CONFIG_DETAIL[pattern]]
                 else:
                     pool = {"cluster": clusters, "topic": all_topics, "consumer": all_groups}.get(pn, [])
-                if pool and rng.random() < 0.75:
+                if pool and rng.random() < 0.8:
                     vals.append(rng.choice(pool).encode())
                 else:
                     vals.append(rng.choice([b"nosuch", b"x.y", b"a b", b"C1", "café".encode()]))
@@ -631,15 +663,41 @@ def gen_e2e(rng, i):
     rng.shuffle(order)
     gets = [gets[k] for k in order]
     metas = [metas[k] for k in order]
-    dts = sorted(rng.randint(0, t_end_off) for _ in gets)
+    n1 = (2 * len(gets)) // 3                       # batch G at the clock value T, batch H with the clock advancing
+    dts = [0] * n1 + sorted(rng.randint(0, t_end_off) for _ in gets[n1:])
+    # the sweep: the later reads that are compared (A: nothing served before, B: batch G served before)
+    plain = [("GET", p) for p in ("/v3/kafka", "/v3/config", "/v3/config/storage", "/v3/config/storage/e2e", "/v3/config/evaluator",
+                                  "/v3/config/evaluator/e2e", "/v3/config/cluster", "/v3/config/consumer", "/v3/config/notifier",
+                                  "/v3/admin/loglevel")]
+    evald = []
+    for c in clusters + ["nosuch"]:
+        ce = escape(c.encode())
+        plain += [("GET", "/v3/kafka/" + ce), ("GET", "/v3/config/cluster/" + ce), ("GET", "/v3/kafka/%s/topic" % ce),
+                  ("GET", "/v3/kafka/%s/consumer" % ce)]
+        for tp in all_topics + ["nosuch"]:
+            te = escape(tp.encode())
+            plain += [("GET", "/v3/kafka/%s/topic/%s" % (ce, te)), ("GET", "/v3/kafka/%s/topic/%s/consumers" % (ce, te))]
+        for gi, g in enumerate(all_groups + ["nosuch"]):
+            ge = escape(g.encode())
+            plain.append(("GET", "/v3/kafka/%s/consumer/%s" % (ce, ge)))
+            st, lg = "/v3/kafka/%s/consumer/%s/status" % (ce, ge), "/v3/kafka/%s/consumer/%s/lag" % (ce, ge)
+            views = [st, lg, st, lg] if gi % 2 == 0 else [lg, st, lg, st]
+            evald += [("GET", v) for v in views]
+    sweep = plain + evald + plain
     toks = ["e2e", str(expire), str(intervals), str(len(clusters))] + [hx(c) for c in clusters] + ["I", str(len(ops))]
     for o in ops:
         toks += o
-    toks += [str(E2E_T0), str(E2E_T0 + t_end_off), "G", str(len(gets))]
-    for (m, raw), dt in zip(gets, dts):
+    toks += [str(E2E_T0), str(E2E_T0 + t_end_off), "G", str(n1)]
+    for (m, raw), dt in list(zip(gets, dts))[:n1]:
+        toks += [str(dt), m, hx(raw)]
+    toks += ["S", str(len(sweep))]
+    for m, raw in sweep:
+        toks += ["0", m, hx(raw)]
+    toks += ["H", str(len(gets) - n1)]
+    for (m, raw), dt in list(zip(gets, dts))[n1:]:
         toks += [str(dt), m, hx(raw)]
     meta = {"kind": "e2e", "expire": expire, "clusters": clusters, "topics": topics, "groups": groups, "gets": metas,
-            "t_end_off": t_end_off, "n_ops": len(ops)}
+            "t_end_off": t_end_off, "n_ops": len(ops), "sweep": sweep, "batch1": gets[:n1], "plans": plans}
     return " ".join(toks), meta
 
 
@@ -676,10 +734,26 @@ def oracle_e2e(meta, impl):
         return "violation", "harness: " + impl[:200]
     if f[1] != "same":
         parts = f[1].split(":")
-        det = ""
-        if len(parts) == 4:
-            det = " key=%s before-only=%s after-GETs=%s" % tuple(unhx(x).decode("utf-8", "replace")[:200] for x in parts[1:])
-        return "violation", "a batch of GET requests changed what later reads return:" + det
+        txt = lambda x: unhx(x).decode("utf-8", "replace")
+        sweep = meta.get("sweep", [])
+        before = "; served before on that stack: " + ", ".join(m + " " + r for m, r in meta.get("batch1", []))[:1500]
+        if parts[1] == "dump" and len(parts) == 5:
+            return "violation", ("GET requests changed what later storage reads return: fetch %s answers %s on the stack that served "
+                                 "nothing and %s on a stack that served GETs" % (txt(parts[2]), txt(parts[3])[:300], txt(parts[4])[:300]))
+        if parts[1] == "sweep" and len(parts) == 7:
+            i = int(parts[2])
+            return "violation", ("a batch of GET requests changed what a later read returns: sweep request #%d %s is answered %s %s on the "
+                                 "stack that served nothing before and %s %s on the stack that served batch G%s"
+                                 % (i, " ".join(sweep[i]) if i < len(sweep) else "?", parts[3], txt(parts[4])[:400], parts[5],
+                                    txt(parts[6])[:400], before))
+        if parts[1] in ("repeatA", "repeatB") and len(parts) == 7:
+            j, i = int(parts[2]), int(parts[5])
+            between = ", ".join(m + " " + r for m, r in sweep[j + 1:i])[:1200]
+            return "violation", ("read requests changed what a later read returns (stack %s): %s answered %s %s as sweep request #%d and %s as "
+                                 "#%d, with only these GETs in between: %s"
+                                 % (parts[1][-1], " ".join(sweep[i]) if i < len(sweep) else "?", parts[3], txt(parts[4])[:400], j,
+                                    txt(parts[6])[:400], i, between))
+        return "violation", "storage-backed case: " + f[1][:300]
     obs = f[f.index("K") + 1:]
     if len(obs) != len(meta["gets"]):
         return "violation", "harness: %d observations for %d GETs" % (len(obs), len(meta["gets"]))
